@@ -1,6 +1,9 @@
 # PLAIN, BYTE_STREAM_SPLIT and dictionary encodings (C08 safety, C11 round trip, C12 layout)
 P08 = dict(overlays=['contracts/plain.ovl'], harness='harness/C08/plain.c', includes=['.'])
 
+PLAIN_FZ = dict(kind='fuzz', harness='replay/fz/plain_decode.c', max_len=40, secs=20,
+                sources=['src/encoding/plain.c', 'src/core/buffer.c'])
+
 JOBS = []
 for t, nloops in [('boolean', 2), ('int32', 0), ('int64', 0), ('int96', 1), ('float', 0), ('double', 0),
                   ('byte_array', 1)]:
@@ -9,10 +12,20 @@ for t, nloops in [('boolean', 2), ('int32', 0), ('int64', 0), ('int96', 1), ('fl
                      min_loop_obligations=nloops, timeout=240, wip=False, est_s=20 if t == 'boolean' else 10, **P08))
 JOBS.append(dict(name='c08_plain_fixed', props=['C08', 'C12'], entry='h_plain_fixed', harness='harness/C08/plain.c',
                  includes=['.'], loop_contracts=False, backend=['cvc5', 'z3'], timeout=400, tier='thorough', est_s=150,
-                 functions=['carquet_decode_plain_fixed_byte_array'], wip=False))
+                 functions=['carquet_decode_plain_fixed_byte_array'], wip=True,
+                 note='symbolic fixed_len: undecided since /repo 0b65e1b (count > input_size / fixed_len: divider + multiplier, '
+                      'z3/cvc5/SAT time out at 400 s); decided per concrete width by c08_plain_fixed_w*'))
+FIXED_WIDTHS = [1, 2, 3, 5, 12, 16, 255, 2147483647]
+for w in FIXED_WIDTHS:
+    JOBS.append(dict(name='c08_plain_fixed_w%d' % w, props=['C08', 'C12'], entry='h_plain_fixed', harness='harness/C08/plain.c',
+                     includes=['.'], loop_contracts=False, defines=['CQV_FIXED_W=%d' % w], timeout=240, level='bounded',
+                     bound='fixed_len == %d (all counts, sizes, data)' % w, tier='quick' if w in (1, 12, 16) else 'thorough',
+                     functions=['carquet_decode_plain_fixed_byte_array'], replayer=PLAIN_FZ, wip=False))
+    JOBS.append(dict(name='c08_plain_dispatch_fixed_w%d' % w, props=['C08'], entry='h_plain_dispatch_fixed', harness='harness/C08/plain.c',
+                     includes=['.'], loop_contracts=False, defines=['CQV_FIXED_W=%d' % w], timeout=240, level='bounded',
+                     bound='type == FIXED_LEN_BYTE_ARRAY, type_length == %d' % w, tier='quick' if w in (12,) else 'thorough',
+                     functions=['carquet_decode_plain', 'carquet_decode_plain_fixed_byte_array'], wip=False))
 # (the former *_hugecount variants are now the main jobs: no bound on count, see harness/C08/plain.c)
-PLAIN_FZ = dict(kind='fuzz', harness='replay/fz/plain_decode.c', max_len=40, secs=20,
-                sources=['src/encoding/plain.c', 'src/core/buffer.c'])
 for j_ in JOBS:
     j_['replayer'] = PLAIN_FZ
 JOBS += [
@@ -22,7 +35,8 @@ JOBS += [
                     'carquet_decode_plain_float', 'carquet_decode_plain_double'], timeout=240, wip=False, **P08),
     dict(name='c08_plain_dispatch_fixed', props=['C08'], entry='h_plain_dispatch_fixed', harness='harness/C08/plain.c',
          includes=['.'], loop_contracts=False, backend=['z3', 'sat'], timeout=300, tier='thorough', est_s=150,
-         functions=['carquet_decode_plain', 'carquet_decode_plain_fixed_byte_array'], wip=False),
+         functions=['carquet_decode_plain', 'carquet_decode_plain_fixed_byte_array'], wip=True,
+         note='symbolic type_length: undecided since /repo 0b65e1b, see c08_plain_dispatch_fixed_w*'),
 ]
 
 # ---- BYTE_STREAM_SPLIT ----
@@ -42,25 +56,23 @@ for w in BSS_WIDTHS:
     JOBS.append(dict(name='c08_bss_decode_generic_w%d' % w, props=['C08'], entry='h_bss_decode_generic',
                      enforce='carquet_byte_stream_split_decode', defines=['CQV_W=%d' % w], min_loop_obligations=2,
                      level='bounded', bound='type_length == %d (all counts, all data)' % w, timeout=300,
-                     tier='quick' if w in (1, 4) else 'thorough', wip=(w in (12, 16)),
-                     note=('ok on the unchanged tree; the run on the broken copy reported broken/vacuity instead of a violation '
-                           '(not investigated) => not validated') if w in (12, 16) else None, **B08))
+                     tier='quick' if w in (1, 4) else 'thorough', wip=False, **B08))
 for w in (1, 2, 4):
     JOBS.append(dict(name='c11_bss_decode_generic_layout_w%d' % w, props=['C11', 'C12'], entry='h_bss_decode_generic',
                      enforce='carquet_byte_stream_split_decode', defines=['CQV_W=%d' % w, 'CQV_CONTENT=1'], min_loop_obligations=2,
-                     level='bounded', bound='type_length == %d (all counts, all data)' % w, timeout=400, est_s=200,
-                     tier='thorough', wip=True, **B08))
+                     level='bounded', bound='type_length == %d (all counts, all data)' % w, timeout=400, est_s=80,
+                     tier='thorough', wip=False, **B08))
 
 # ---- dictionary ----
 D08 = dict(overlays=['contracts/dictionary.ovl'], harness='harness/C08/dictionary.c', includes=['.'],
            extra_sources=['stubs/mem_stubs.c', 'stubs/plain_stubs.c'],
            cbmc_flags=['--malloc-may-fail', '--malloc-fail-null'], defines=['CQV_RLE_STUB_FRESH_OUTPUT=1'],
            trusted=['stubs/plain_stubs.c: carquet_rle_decode_all as contract (-1 or n <= max_values, arbitrary uint32 values written)'])
-DICT_NOTE = ('FINDING: `(int32_t)indices[i] >= dict_count` accepts indices >= 2^31 (negative after the cast): '
+DICT_NOTE = ('fixed upstream by /repo 5f5c9b3; was FINDING: `(int32_t)indices[i] >= dict_count` accepts indices >= 2^31 (negative after the cast): '
              'dict_data + indices[i]*width is read far outside the dictionary')
 for t in ('int32', 'int64', 'float', 'double'):
     JOBS.append(dict(name='c08_dict_decode_' + t, props=['C08'], entry='h_dict_decode_' + t,
-                     enforce='carquet_dictionary_decode_' + t, min_loop_obligations=1, timeout=240, wip=True,
+                     enforce='carquet_dictionary_decode_' + t, min_loop_obligations=1, timeout=240, wip=False,
                      replayer=dict(kind='fuzz', harness='replay/fz/dict_decode.c', max_len=32, secs=20,
                                    sources=['src/encoding/dictionary.c', 'src/encoding/rle.c', 'src/core/buffer.c', 'src/core/bitpack.c']),
                      note=DICT_NOTE, **D08))
@@ -70,9 +82,9 @@ BUF_TRUST = ['stubs/plain_stubs.c: carquet_buffer_append/append_u32_le/advance a
              'to the buffer); storing them is the buffer family\'s contract']
 JOBS.append(dict(name='c11_plain_encode_boolean', props=['C11', 'C12'], entry='h_enc_boolean', enforce='carquet_encode_plain_boolean',
                  overlays=['contracts/plain.ovl'], harness='harness/C11/plain.c', includes=['.'],
-                 extra_sources=['stubs/plain_stubs.c'], defines=['CQV_OWN_MEMSET=1'], min_loop_obligations=1, timeout=300, wip=True,
+                 extra_sources=['stubs/plain_stubs.c'], defines=['CQV_OWN_MEMSET=1'], min_loop_obligations=1, timeout=300, wip=False,
                  trusted=BUF_TRUST + ['stubs/plain_stubs.c: memset with ghost-index postcondition'],
-                 note='FINDING: an empty boolean sequence (count == 0) is reported as CARQUET_ERROR_OUT_OF_MEMORY '
+                 note='fixed upstream by /repo b69c313; was FINDING: an empty boolean sequence (count == 0) is reported as CARQUET_ERROR_OUT_OF_MEMORY '
                       '(carquet_buffer_advance returns NULL for size 0)'))
 for w, t in enumerate(['int32', 'int64', 'float', 'double', 'fixed_byte_array']):
     JOBS.append(dict(name='c11_plain_encode_' + t, props=['C11', 'C12'], entry='h_enc_fixedwidth', harness='harness/C11/plain.c',
@@ -82,18 +94,53 @@ for w, t in enumerate(['int32', 'int64', 'float', 'double', 'fixed_byte_array'])
 
 # ---- C11/C12: BYTE_STREAM_SPLIT encoders ----
 B11 = dict(B08, harness='harness/C11/bss.c')
+ENC_WRAP_NOTE = ('FINDING: count is not checked for < 0 and (size_t)count*width wraps: e.g. encode_float(count=-2^62+1, capacity=16) '
+                 'returns CARQUET_OK with *bytes_written == 4; the single failing obligation is the ensures "OK ==> count >= 0 && '
+                 'bytes_written == count*w <= capacity"; passes with the proposed fix (/tmp/plain/demo/bss_fix.diff)')
 JOBS += [
     dict(name='c11_bss_encode_float', props=['C11', 'C12'], entry='h_bss_encode_float',
-         enforce='carquet_byte_stream_split_encode_float', timeout=240, wip=True, **B11),
+         enforce='carquet_byte_stream_split_encode_float', timeout=240, wip=True, note=ENC_WRAP_NOTE, **B11),
     dict(name='c11_bss_encode_double', props=['C11', 'C12'], entry='h_bss_encode_double',
-         enforce='carquet_byte_stream_split_encode_double', timeout=240, wip=True, **B11),
+         enforce='carquet_byte_stream_split_encode_double', timeout=240, wip=True, note=ENC_WRAP_NOTE, **B11),
 ]
 for w in (1, 2, 4):
     JOBS.append(dict(name='c11_bss_encode_generic_w%d' % w, props=['C11', 'C12'], entry='h_bss_encode_generic',
                      enforce='carquet_byte_stream_split_encode', defines=['CQV_W=%d' % w, 'CQV_CONTENT=1'], min_loop_obligations=2,
-                     level='bounded', bound='type_length == %d (all counts, all data)' % w, timeout=400, est_s=200,
-                     tier='thorough', wip=True, **B11))
+                     level='bounded', bound='type_length == %d (all counts, all data)' % w, timeout=400, est_s=120,
+                     tier='thorough', wip=(w != 1), note=None if w == 1 else ENC_WRAP_NOTE, **B11))
 
 # ---- C11: dictionary encoder index width ----
 JOBS.append(dict(name='c11_dict_bit_width_for_count', props=['C11'], entry='h_bit_width_for_count', harness='harness/C11/dictionary.c',
                  includes=['.'], loop_contracts=False, unwind=34, functions=['bit_width_for_count'], timeout=120, wip=False))
+
+# ---- count wrap in the (unchanged) BSS decoders and dictionary decoders: FINDING jobs, stay wip ----
+WRAP_NOTE = ('FINDING: (size_t)count*width wraps for count >= 2^64/width and for some negative counts: returns CARQUET_OK although '
+             'count*width > data_size / count < 0; the kernels are then called with that count')
+JOBS += [
+    dict(name='c08_bss_decode_float_hugecount', props=['C08'], entry='h_bss_decode_float', defines=['CQV_HUGE=1'],
+         enforce='carquet_byte_stream_split_decode_float', timeout=240, wip=True, note=WRAP_NOTE, **B08),
+    dict(name='c08_bss_decode_double_hugecount', props=['C08'], entry='h_bss_decode_double', defines=['CQV_HUGE=1'],
+         enforce='carquet_byte_stream_split_decode_double', timeout=240, wip=True, note=WRAP_NOTE, **B08),
+    dict(name='c08_bss_decode_generic_w4_hugecount', props=['C08'], entry='h_bss_decode_generic', defines=['CQV_HUGE=1', 'CQV_W=4'],
+         enforce='carquet_byte_stream_split_decode', min_loop_obligations=2, level='bounded', bound='type_length == 4',
+         timeout=240, wip=True, note=WRAP_NOTE, **B08),
+    dict(name='c08_dict_decode_int32_hugecount', props=['C08'], entry='h_dict_decode_int32', defines=['CQV_HUGE=1', 'CQV_RLE_STUB_FRESH_OUTPUT=1'],
+         enforce='carquet_dictionary_decode_int32', min_loop_obligations=1, timeout=240, wip=True,
+         note='FINDING: malloc(output_count * sizeof(uint32_t)) wraps for output_count >= 2^62: undersized index buffer handed to carquet_rle_decode_all',
+         **{k: v for k, v in D08.items() if k != 'defines'}),
+]
+
+# ---- C11/C12: PLAIN int96 / byte_array encoders (recorded calls, ghost call number / ghost element) ----
+E11 = dict(overlays=['contracts/plain.ovl'], harness='harness/C11/plain.c', includes=['.'], props=['C11', 'C12'],
+           extra_sources=['stubs/mem_stubs.c', 'stubs/plain_stubs.c'], min_loop_obligations=1, timeout=300, trusted=BUF_TRUST)
+JOBS += [
+    dict(name='c11_plain_encode_int96', entry='h_enc_int96', enforce='carquet_encode_plain_int96', wip=False, est_s=60, **E11),
+    dict(name='c11_plain_encode_byte_array', entry='h_enc_byte_array', enforce='carquet_encode_plain_byte_array', wip=False, **E11),
+]
+
+# ---- C11: dictionary builder (bounded) ----
+JOBS.append(dict(name='c11_dict_builder_add', props=['C11'], entry='h_dict_builder_add', harness='harness/C11/dictionary.c',
+                 includes=['.'], loop_contracts=False, unwind=10, extra_sources=['stubs/mem_stubs.c', 'stubs/plain_stubs.c'],
+                 cbmc_flags=['--malloc-may-fail', '--malloc-fail-null'], level='bounded',
+                 bound='hash chain <= 2 entries, value_size <= 8, index array capacity <= 4 (realloc path included)',
+                 functions=['dict_builder_add', 'dict_hash'], trusted=BUF_TRUST, timeout=300, wip=True))
